@@ -277,7 +277,7 @@ def update_node(
     if target not in node_ref:  # add node
         # TODO: remove decommented try-except construction later
         # try:
-        _add_node(target, settings, data, nodes, node_ref)
+        _add_node(target, list(settings or []), data, nodes, node_ref)
         # except KeyError:
         #    pass
         return None
@@ -309,7 +309,9 @@ def update_node(
         if replace:
             node.settings = list(settings)
         else:
-            node.settings += settings
+            # only add what is missing: applying an update twice must give
+            # the same input as applying it once
+            node.settings += [i for i in settings if i not in node.settings]
     return node
 
 
@@ -371,7 +373,8 @@ def update_cp2k_input(
     if update is not None:
         for target in update:
             value = update[target]
-            settings = value.get("settings", [])
+            # no "settings" in the update: leave the section parameters alone
+            settings = value.get("settings")
             replace = value.get("replace", False)
             data = value.get("data", {})
             update_node(
